@@ -639,6 +639,16 @@ def rule_e(ctx: Context, R: Reporter):
                                 # condition on the value: only `value is not None`
                                 nt = is_none_test(t)
                                 ok = nt is not None and ((nt[1] is False and pol) or (nt[1] is True and not pol))
+                                if not ok:
+                                    # any boolean expression over the single atom `value is [not] None` that is true exactly when the value is set
+                                    from ..util import bool_skeleton as _bs
+
+                                    atoms_: List[ast.expr] = []
+                                    f_ = _bs(t, atoms_)
+                                    if len(atoms_) == 1 and is_none_test(atoms_[0]) is not None:
+                                        is_none_when_true = is_none_test(atoms_[0])[1]
+                                        # atom value v  <=>  (value is None) == is_none_when_true
+                                        ok = all((f_((v,)) == pol) == ((v == is_none_when_true) is False) for v in (False, True))
                                 if not ok and not _is_strict_flag(t):
                                     R.check("C07.e", "commit is not filtered by a value-dependent condition", False, m, t,
                                             msg=f"{m.short}: the history append is guarded by `{unparse(t)}`", key=f"commit-guard:{norm_text(t)}")
@@ -782,10 +792,18 @@ def rule_g(ctx: Context, R: Reporter):
                     dt = next((k.value for k in c.keywords if k.arg == "dtype"), c.args[1] if len(c.args) > 1 else None)
                 elif isinstance(c.func, ast.Attribute) and c.func.attr == "astype" and c.args and not nm.startswith("numpy."):
                     dt = c.args[0]
+                elif nm in ("numpy.empty", "numpy.zeros", "numpy.ones", "numpy.full", "numpy.empty_like", "numpy.zeros_like", "numpy.ones_like", "numpy.full_like"):
+                    # an array allocated to receive the values: its dtype is the precision they are stored in
+                    at_ = flow.node_containing(c)
+                    st_ = at_.stmt if at_ is not None else None
+                    if isinstance(st_, ast.Assign) and isinstance(st_.targets[0], ast.Name) and name_tag(st_.targets[0].id) == "logl" and st_.value is c:
+                        dt = next((k.value for k in c.keywords if k.arg == "dtype"), None)
+                        if dt is None and nm.endswith("_like") and c.args:
+                            dt = ast.Attribute(value=c.args[0], attr="dtype", ctx=ast.Load())  # the template's dtype
                 if dt is None:
                     continue
                 at = flow.node_containing(c)
-                tgt = c.args[0] if nm.startswith("numpy.") and c.args else (c.func.value if isinstance(c.func, ast.Attribute) else None)
+                tgt = c.args[0] if nm.startswith("numpy.") and c.args and not nm.split(".")[-1].startswith(("empty", "zeros", "ones", "full")) else (c.func.value if isinstance(c.func, ast.Attribute) and not nm.startswith("numpy.") else None)
                 # is the converted value the likelihood result (by tag of the assigned name or of the operand)?
                 st = at.stmt if at is not None else None
                 lhs_tag = name_tag(st.targets[0].id) if isinstance(st, ast.Assign) and isinstance(st.targets[0], ast.Name) else None
@@ -797,7 +815,13 @@ def rule_g(ctx: Context, R: Reporter):
                             raw_results = True
                 if lhs_tag != "logl" and not (tgt is not None and tg.tag(tgt, at) == "logl") and not raw_results:
                     continue
-                dtxt = norm_text(dt)
+                try:
+                    from ..dataflow import Resolver as _Rs
+
+                    dt_r = _Rs(fi.node).resolve(dt, at) if at is not None else dt
+                except Exception:
+                    dt_r = dt
+                dtxt = norm_text(dt_r)
                 if dtxt in ("float", "np.float64", "numpy.float64", "'float64'", "'f8'", "np.double", "'float'", "np.longdouble", "np.float128"):
                     continue
                 R.check("C07.g", f"{fi.short}: log-likelihood values keep the user's double precision", False, fi, c,
@@ -1072,10 +1096,14 @@ def variants():
         Variant("c-rwm-no-check", "bad", replace_if(mc, "RWMRunner._propose", "check_bounds(proposal, self.periodic, self.reflective)", "return proposal"), ["C07.c"], quick=True),
         Variant("c-tpcn-no-map", "bad", delete_stmt(mc, "TPCNRunner._propose", "proposal = apply_boundary_conditions(proposal, self.periodic, self.reflective)"), ["C07.c"]),
         Variant("d-swap-u-x-unpack", "bad", replace_expr(mu, "Mutator.run", "{'u': u, 'x': x, 'logl': logl, 'efficiency': efficiency, 'acceptance': acceptance, 'steps': steps}", "{'u': x, 'x': u, 'logl': logl, 'efficiency': efficiency, 'acceptance': acceptance, 'steps': steps}"), ["C07.d"], quick=True),
+        Variant("e-commit-skips-nonfinite-scalars", "bad", replace_expr(sm, "StateManager.commit_current_to_history", "value is not None", "value is not None and (np.ndim(value) > 0 or bool(np.isfinite(value)))"), ["C07.e"], quick=True),
+        Variant("e-benign-commit-guard-negated-form", "benign", replace_expr(sm, "StateManager.commit_current_to_history", "value is not None", "not (value is None)")),
         Variant("e-commit-skips-blobs", "bad", replace_expr(sm, "StateManager.commit_current_to_history", "current_key in HISTORY_STATE_KEYS", "current_key in HISTORY_STATE_KEYS and current_key != 'blobs'"), ["C07.e"]),
         Variant("f-writeback-omits-blobs", "bad", edit(mu, "Mutator.run", _merge_writebacks(("x", "u", "logl"))), ["C07.f"], quick=True),
         Variant("f-writeback-omits-x", "bad", edit(mu, "Mutator.run", _merge_writebacks(("u", "logl", "blobs"))), ["C07.f"]),
         Variant("g-nan-to-num-kernel", "bad", insert_before(mc, "BaseMCMCRunner._evaluate_likelihood", "self.n_calls += self.n_walkers", "logl_prime = np.nan_to_num(logl_prime)"), ["C07.g"], quick=True),
+        Variant("g-logl-array-in-coordinate-precision", "bad", replace_stmt(core, "SamplerCore._log_like", "logl = np.array([float(value) for value in results])", "logl = np.empty(len(results), dtype=np.result_type(np.asarray(x).dtype, np.float32))\nfor i, value in enumerate(results):\n    logl[i] = float(value)"), ["C07.g"], quick=True),
+        Variant("g-benign-logl-array-preallocated-double", "benign", replace_stmt(core, "SamplerCore._log_like", "logl = np.array([float(value) for value in results])", "logl = np.empty(len(results), dtype=float)\nfor i, value in enumerate(results):\n    logl[i] = float(value)")),
         Variant("g-nan-to-num-wrapper", "bad", replace_expr(core, "SamplerCore._log_like", "(self.config.log_likelihood(x), None)", "(np.nan_to_num(self.config.log_likelihood(x), nan=-np.inf), None)"), ["C07.g"]),
         Variant("a-partial-row-copy", "bad", insert_before(mc, "BaseMCMCRunner.run", "logl_prime, blobs_prime = self._evaluate_likelihood(x_prime)", "bad_rows = ~np.all(np.isfinite(x_prime), axis=1)\nx_prime[bad_rows] = self.x[bad_rows]"), ["C07.a"], quick=True),
         Variant("k-zero-is-falsy", "bad", replace_stmt("tempest/tools.py", "FunctionWrapper.__call__", "return self.f(x, *self.args, **self.kwargs)", "value = self.f(x, *self.args, **self.kwargs)\nif not value:\n    return -np.inf\nreturn value"), ["C07.k"], quick=True),
